@@ -707,6 +707,38 @@ def _replay_c02_cross(prop, harness, rec):
     return {"status": "not_reproduced", "out": o, "detail": "every join returned its task's value"}
 
 
+@replayer("c02_rejoin")
+def _replay_c02_rejoin(prop, harness, rec):
+    r = run_case(["join_rejoin"], 60)
+    if "error" in r:
+        return {"status": "unavailable", "detail": r["error"]}
+    o = r["out"]
+    if o is None:
+        return {"status": "unavailable", "detail": f"native case crashed: {r['stderr_tail'][-200:]}"}
+    if not o["first_timed_out"]:
+        return {"status": "unavailable", "out": o, "detail": "native scenario did not set up as intended (the first join did not time out)"}
+    if not o["second_ok"] or o["second_waited_ms"] >= 1900:
+        return {"status": "reproduced", "out": o,
+                "detail": f"after a join that timed out, a second join (2 s limit) of the same task came back after {o['second_waited_ms']} ms "
+                          f"with{'' if o['second_ok'] else 'out'} the value although the task finished ~130 ms into it"}
+    return {"status": "not_reproduced", "out": o, "detail": f"the second join was woken after {o['second_waited_ms']} ms with the task's value"}
+
+
+@replayer("c02_handle")
+def _replay_c02_handle(prop, harness, rec):
+    r = run_case(["join_poll"], 60)
+    if "error" in r:
+        return {"status": "unavailable", "detail": r["error"]}
+    o = r["out"]
+    if o is None:
+        return {"status": "unavailable", "detail": f"native case crashed: {r['stderr_tail'][-200:]}"}
+    if not o["zero_duration_join_ok"] or not o["expired_deadline_join_ok"]:
+        return {"status": "reproduced", "out": o,
+                "detail": f"the task had finished; timeout_join(ZERO) returned its value: {o['zero_duration_join_ok']}, "
+                          f"timeout_at_join(expired deadline) returned its value: {o['expired_deadline_join_ok']}"}
+    return {"status": "not_reproduced", "out": o, "detail": "both polls of the finished task returned its value"}
+
+
 @replayer("c02_completion")
 def _replay_c02_race(prop, harness, rec):
     r = run_case(["join_race", 3000, 300], 600)
@@ -749,6 +781,66 @@ def _replay_c13_waiter(prop, harness, rec):
     return {"status": "not_reproduced", "out": o, "detail": "the waiter was answered"}
 
 
+@replayer("c12_stop_settles_a_waiter_that_polls")
+def _replay_c12_polls(prop, harness, rec):
+    r = run_case(["pool_cancel", "polls"], 30)
+    if "error" in r:
+        return {"status": "unavailable", "detail": r["error"]}
+    if r["timed_out"]:
+        return {"status": "reproduced", "detail": "stop() with a waiter registration left never returned (30 s watchdog)"}
+    o = r["out"]
+    if o is None:
+        return {"status": "unavailable", "detail": f"native case gave no output (rc={r['rc']})"}
+    if not o["first_timed_out"]:
+        return {"status": "unavailable", "out": o, "detail": "native scenario did not set up as intended"}
+    if o["second_poll"] != "error":
+        return {"status": "reproduced", "out": o,
+                "detail": f"a waiter polled (timed out), the pool was stopped, the waiter polled again: it got '{o['second_poll']}' after "
+                          f"{o['second_waited_ms']} ms instead of the stop error"}
+    return {"status": "not_reproduced", "out": o, "detail": "the second poll returned the stop error at once"}
+
+
+@replayer("c13_cancel_first_queued_task")
+@replayer("c13_cancel_second_queued_task")
+@replayer("c13_late_waiter")
+def _replay_c13_two(prop, harness, rec):
+    which = 0 if "first" in harness else 1
+    r = run_case(["pool_cancel", "two", which], 30)
+    if "error" in r:
+        return {"status": "unavailable", "detail": r["error"]}
+    o = r["out"]
+    if o is None:
+        return {"status": "unavailable", "detail": f"native case gave no output (rc={r['rc']}, timed_out={r['timed_out']})"}
+    c_ran, o_ran = (o["first_ran"], o["second_ran"]) if which == 0 else (o["second_ran"], o["first_ran"])
+    bad = []
+    if c_ran != 0:
+        bad.append(f"the cancelled task ran {c_ran} time(s)")
+    if o_ran != 1:
+        bad.append(f"the other task ran {o_ran} time(s)")
+    if o["late_waiter_of_cancelled"] != "error":
+        bad.append(f"a late waiter of the cancelled task got '{o['late_waiter_of_cancelled']}' after {o['late_waited_ms']} ms")
+    if o["waiter_of_other"] != "value":
+        bad.append(f"the other task's waiter got '{o['waiter_of_other']}'")
+    if bad:
+        return {"status": "reproduced", "out": o, "detail": "two queued tasks, one cancelled before it started: " + "; ".join(bad)}
+    return {"status": "not_reproduced", "out": o, "detail": "cancelled task never ran, the other ran once, both waiters answered"}
+
+
+@replayer("c13_repeated_cancel")
+def _replay_c13_again(prop, harness, rec):
+    r = run_case(["pool_cancel", "again"], 30)
+    if "error" in r:
+        return {"status": "unavailable", "detail": r["error"]}
+    o = r["out"]
+    if o is None:
+        return {"status": "unavailable", "detail": f"native case gave no output (rc={r['rc']}, timed_out={r['timed_out']})"}
+    if o["cancelled_ran"] != 0 or o["other_task_finished"] != 1:
+        return {"status": "reproduced", "out": o,
+                "detail": f"the cancelled task was discarded and cancelled a second time while the worker had moved on to another (suspended) task: "
+                          f"that other task finished {o['other_task_finished']} time(s), the cancelled one ran {o['cancelled_ran']} time(s)"}
+    return {"status": "not_reproduced", "out": o, "detail": "the other task finished, the cancelled one never ran"}
+
+
 @replayer("c12_stop_settles_waiters")
 def _replay_c12_settle(prop, harness, rec):
     r = run_case(["pool_cancel", "stop"], 15)
@@ -765,10 +857,11 @@ def _replay_c12_settle(prop, harness, rec):
 
 @replayer("c09_step_delay_in_syscall_state")
 @replayer("c09_step_cancel_in_syscall_state")
+@replayer("c09_step_cancel_while_parked")
 @replayer("c09_syscall_state_requests")
 def _replay_c09_syscall_state(prop, harness, rec):
     tried = []
-    for kind in (["cancel"] if "cancel" in harness else ["delay"]) + (["delay", "cancel"] if "requests" in harness else []):
+    for kind in (["parked"] if "parked" in harness else ["cancel"] if "cancel" in harness else ["delay"]) + (["delay", "cancel", "parked"] if "requests" in harness else []):
         r = run_case(["co_leak", kind, 4242], 20)
         if "error" in r:
             return {"status": "unavailable", "detail": r["error"]}
@@ -778,5 +871,5 @@ def _replay_c09_syscall_state(prop, harness, rec):
             return {"status": "unavailable", "detail": f"native case crashed: {r['stderr_tail'][-200:]}"}
         if not o["b_plain_suspend_reported_correctly"]:
             return {"status": "reproduced", "tried": tried,
-                    "detail": f"coroutine A made a {kind} request while in a system-call state ({o['a_reports']}); the next coroutine's plain suspend on the same thread was reported as {o['b_reports']}"}
+                    "detail": f"coroutine A made a {'cancel' if kind == 'parked' else kind} request while {'parked ' if kind == 'parked' else ''}in a system-call state ({o['a_reports']}); the next coroutine's plain suspend on the same thread was reported as {o['b_reports']}"}
     return {"status": "not_reproduced", "tried": tried, "detail": "the following coroutine's plain suspend was reported as Suspend((), 0)"}
